@@ -2,10 +2,11 @@
 (* Exhaustive exploration of Collection.tla with small constants (X).      *)
 EXTENDS Collection, TLC
 
-CONSTANTS MaxCrash, MaxOps, OpKinds
+CONSTANTS MaxCrash, MaxOps, OpKinds,
+  MaxFaults     \* storage faults that leave the handle healthy (poisoning faults are crashes)
 
-VARIABLES crashes, nops
-mcvars == <<vars, crashes, nops>>
+VARIABLES crashes, nops, faults
+mcvars == <<vars, crashes, nops, faults>>
 
 \* index names are strings; kinds and terms for the model values 1..3:
 \*   value 1: key 1, tokens {1,2}   value 2: key 2, tokens {2}   value 3: key 1 (conflicts with 1), no text
@@ -22,10 +23,11 @@ MCWantedA == <<"k", "a">>
 MCWantedB == <<"k", "t", "v", "a">>
 MCWantedC == <<"k", "a">>
 
-MCInit == Init /\ crashes = 0 /\ nops = 0
+MCInit == Init /\ crashes = 0 /\ nops = 0 /\ faults = 0
 
-Op(A) == A /\ nops < MaxOps /\ nops' = nops + 1 /\ UNCHANGED crashes
-Step(A) == A /\ UNCHANGED <<crashes, nops>>
+Op(A) == A /\ nops < MaxOps /\ nops' = nops + 1 /\ UNCHANGED <<crashes, faults>>
+Step(A) == A /\ UNCHANGED <<crashes, nops, faults>>
+Flt(A) == A /\ faults < MaxFaults /\ faults' = faults + 1 /\ UNCHANGED <<crashes, nops>>
 
 MCNext ==
   \/ ("add" \in OpKinds /\ \E v \in Val : Op(AddCall(v)))
@@ -45,7 +47,9 @@ MCNext ==
   \/ Step(FlushRet) \/ Step(CloseRet) \/ Step(MissRet)
   \/ ("close" \in OpKinds /\ Op(CloseCall))
   \/ ("missing" \in OpKinds /\ \E id \in Id : Op(UpdMissing(id)))
-  \/ (Crash /\ crashes < MaxCrash /\ crashes' = crashes + 1 /\ UNCHANGED nops)
+  \/ (\E b \in BOOLEAN : Flt(AddWmFail(b)) \/ Flt(AddDocFail(b)) \/ Flt(IntentFail(nextSeq, b)))
+  \/ Step(AddCompDelete) \/ Step(FailRet)
+  \/ (Crash /\ crashes < MaxCrash /\ crashes' = crashes + 1 /\ UNCHANGED <<nops, faults>>)
   \/ Step(OpenLoad) \/ (\E i \in Index : Step(CbCreateIndex(i)))
   \/ (\E j \in Removable : Step(CbRemoveIndex(j)))
   \/ Step(OpenReplay)
